@@ -36,18 +36,40 @@ use compio_driver::{
 use hx_common::*;
 
 const MAXJOBS: usize = 4096;
+/// job ids >= RESCUE_BASE belong to the watchdog
+const RESCUE_BASE: usize = MAXJOBS - 256;
+const F170: &str = "F170:asyncify-dispatch-stranded";
 
 // ---------------------------------------------------------------------------------------------
 // observing the process' threads
 
-/// (tid, state) of every other thread of this process
+/// tids of the harness' own helper threads (dispatching threads, rescuers): not pool threads
+static HELPERS: Mutex<Vec<i32>> = Mutex::new(Vec::new());
+
+/// spawn a harness thread that `others()` ignores
+fn helper<T: Send + 'static>(f: impl FnOnce() -> T + Send + 'static) -> thread::JoinHandle<T> {
+    thread::spawn(move || {
+        let tid = unsafe { libc::gettid() };
+        HELPERS.lock().unwrap_or_else(|p| p.into_inner()).push(tid);
+        f()
+    })
+}
+
+/// forget helper tids that no longer exist (tids get reused)
+fn prune_helpers() {
+    let mut h = HELPERS.lock().unwrap_or_else(|p| p.into_inner());
+    h.retain(|tid| fs::metadata(format!("/proc/self/task/{tid}")).is_ok());
+}
+
+/// (tid, state) of every other thread of this process, helper threads excluded
 fn others() -> Vec<(i32, u8)> {
     let me = unsafe { libc::gettid() };
+    let helpers = HELPERS.lock().unwrap_or_else(|p| p.into_inner()).clone();
     let mut v = vec![];
     if let Ok(rd) = fs::read_dir("/proc/self/task") {
         for e in rd.flatten() {
             let tid: i32 = e.file_name().to_string_lossy().parse().unwrap_or(0);
-            if tid == me || tid == 0 {
+            if tid == me || tid == 0 || helpers.contains(&tid) {
                 continue;
             }
             if let Ok(s) = fs::read_to_string(format!("/proc/self/task/{tid}/stat")) {
@@ -64,6 +86,7 @@ fn wait_quiet() -> Option<usize> {
     let t0 = Instant::now();
     let mut streak = 0;
     let mut last = usize::MAX;
+    let mut spins = 0u32;
     loop {
         let o = others();
         let alive: Vec<_> = o.iter().filter(|(_, s)| *s != b'Z' && *s != b'X').collect();
@@ -74,7 +97,7 @@ fn wait_quiet() -> Option<usize> {
                 streak = 1;
                 last = alive.len();
             }
-            if streak >= 3 {
+            if streak >= 2 {
                 return Some(alive.len());
             }
         } else {
@@ -84,8 +107,13 @@ fn wait_quiet() -> Option<usize> {
         if t0.elapsed() > Duration::from_secs(10) {
             return None;
         }
-        std::hint::spin_loop();
-        thread::yield_now();
+        // leave the CPU to the threads we are waiting for
+        spins += 1;
+        if spins < 30 {
+            thread::yield_now();
+        } else {
+            thread::sleep(Duration::from_micros(30));
+        }
     }
 }
 
@@ -160,6 +188,8 @@ struct Shared {
     exec: Vec<AtomicUsize>,
     dropped: Vec<AtomicUsize>,
     ended: AtomicUsize,
+    /// ids of the rescue jobs dispatched by the watchdog (logged as dispatcher 99)
+    rescue_next: AtomicUsize,
     salt: u64,
 }
 
@@ -170,6 +200,7 @@ impl Shared {
             exec: (0..MAXJOBS).map(|_| AtomicUsize::new(0)).collect(),
             dropped: (0..MAXJOBS).map(|_| AtomicUsize::new(0)).collect(),
             ended: AtomicUsize::new(0),
+            rescue_next: AtomicUsize::new(RESCUE_BASE),
             salt,
         })
     }
@@ -201,6 +232,11 @@ impl Shared {
         l.ev.push(Ev::End(w, j));
         drop(l);
         self.ended.fetch_add(1, SeqCst);
+    }
+
+    /// grows whenever anything observable happens
+    fn progress(&self) -> usize {
+        self.log.lock().unwrap_or_else(|p| p.into_inner()).ev.len() + self.ended.load(SeqCst)
     }
 
     fn running(&self) -> usize {
@@ -267,6 +303,7 @@ struct Job {
 
 struct EndGuard {
     sh: Arc<Shared>,
+    token: Option<Token>,
     id: usize,
     w: usize,
     out: Out,
@@ -277,6 +314,8 @@ struct EndGuard {
 impl Drop for EndGuard {
     fn drop(&mut self) {
         let out = if thread::panicking() { Out::Crash } else { self.out };
+        // the closure's captures die with the job body, before the result is visible
+        drop(self.token.take());
         self.sh.end(self.w, self.id);
         let _ = self.res.send((self.id, out, self.sum));
     }
@@ -284,16 +323,15 @@ impl Drop for EndGuard {
 
 impl Dispatchable for Job {
     fn run(self: Box<Self>) {
-        let me = *self;
-        let sh = me.token.shared.clone();
-        sh.exec[me.id].fetch_add(1, SeqCst);
-        let w = sh.begin(me.id);
-        if let Some(tx) = &me.begin_tx {
-            let _ = tx.send((me.id, w));
+        let Job { id, kind, payload, wait, res, begin_tx, token } = *self;
+        let sh = token.shared.clone();
+        sh.exec[id].fetch_add(1, SeqCst);
+        let w = sh.begin(id);
+        if let Some(tx) = &begin_tx {
+            let _ = tx.send((id, w));
         }
-        let mut guard =
-            EndGuard { sh, id: me.id, w, out: Out::Value, sum: checksum(&me.payload), res: me.res.clone() };
-        match &me.wait {
+        let mut guard = EndGuard { sh, token: Some(token), id, w, out: Out::Value, sum: checksum(&payload), res };
+        match &wait {
             Wait::Gate(rx) => {
                 let _ = rx.recv();
             }
@@ -303,14 +341,14 @@ impl Dispatchable for Job {
                 }
             }
         }
-        match me.kind {
+        match kind {
             b'p' => {
                 // what the drivers' `catch_unwind_io` wrapper does with a panicking operation
-                let r = catch_unwind(AssertUnwindSafe(|| panic!("job {} panics (caught)", me.id)));
+                let r = catch_unwind(AssertUnwindSafe(|| panic!("job {id} panics (caught)")));
                 assert!(r.is_err());
                 guard.out = Out::Panic;
             }
-            b'r' => panic!("job {} panics (uncaught)", me.id),
+            b'r' => panic!("job {id} panics (uncaught)"),
             _ => guard.out = Out::Value,
         }
     }
@@ -338,6 +376,108 @@ fn make_job(
 /// the refused closure must be the very one handed in
 fn intact(sh: &Shared, j: &Job, id: usize, kind: u8) -> bool {
     j.id == id && j.kind == kind && j.token.id == id && j.payload == payload_of(sh.salt, id)
+}
+
+// ---------------------------------------------------------------------------------------------
+// watchdog: a dispatch that blocks for good (F170) is reported and then rescued by one more dispatch
+
+/// dispatch a no-op job from a detached thread (logged as dispatcher 99): the worker spawned for it
+/// serves the blocked sender first (flume's `sending` queue is FIFO)
+fn rescue(pool: &AsyncifyPool, sh: &Arc<Shared>) {
+    let (pool, sh) = (pool.clone(), sh.clone());
+    helper(move || {
+        let j = sh.rescue_next.fetch_add(1, SeqCst);
+        if j >= MAXJOBS {
+            return;
+        }
+        let (tx, _rx) = mpsc::channel();
+        let mut job = make_job(&sh, j, b'v', Wait::Sleep(Duration::ZERO), &tx, None);
+        sh.push(Ev::Call(99, j));
+        let t0 = Instant::now();
+        loop {
+            match catch(|| pool.dispatch(job)) {
+                Ok(Ok(())) => {
+                    sh.push(Ev::RetOk(99, j));
+                    return;
+                }
+                Ok(Err(DispatchError(back))) if t0.elapsed() < Duration::from_secs(2) => {
+                    job = back;
+                    thread::yield_now();
+                }
+                Ok(Err(_)) => {
+                    sh.push(Ev::RetBusy(99, j));
+                    return;
+                }
+                Err(_) => {
+                    sh.push(Ev::RetPanic(99, j));
+                    return;
+                }
+            }
+        }
+    });
+}
+
+/// Wait until `done()`.  The run is stranded when every thread that is left sleeps and none of them is
+/// a pool thread outside a job (`expected()` = the dispatching threads still inside `dispatch` plus the
+/// pool threads inside gated jobs; seen three times, 25 ms apart), or, as a fallback, when nothing
+/// observable happens for 1.5 s.  Reported once; then rescued until the run moves again.
+fn watch(
+    pool: &AsyncifyPool,
+    sh: &Arc<Shared>,
+    done: &dyn Fn() -> bool,
+    expected: &dyn Fn() -> usize,
+    limit: usize,
+    tmo_ms: u64,
+) -> Option<(String, String)> {
+    let mut stalled = None;
+    let mut last = sh.progress();
+    let mut since = Instant::now();
+    let mut patience = Duration::from_millis(1500);
+    let mut checked = Instant::now();
+    let mut dead = 0;
+    loop {
+        if done() {
+            return stalled;
+        }
+        let n = sh.progress();
+        let mut fire = None;
+        if n != last {
+            last = n;
+            since = Instant::now();
+            dead = 0;
+        } else if since.elapsed() > patience {
+            fire = Some("no progress for 1.5 s");
+        } else if checked.elapsed() > Duration::from_millis(25) {
+            checked = Instant::now();
+            let o = others();
+            if !done() && o.len() == expected() && o.iter().all(|(_, st)| *st == b'S') {
+                dead += 1;
+                if dead >= 3 {
+                    fire = Some("no pool thread is left to receive");
+                }
+            } else {
+                dead = 0;
+            }
+        }
+        if let Some(why) = fire {
+            if stalled.is_none() {
+                let o = others();
+                let asleep = o.iter().filter(|(_, s)| *s == b'S').count();
+                stalled = Some((
+                    F170.to_string(),
+                    format!(
+                        "limit={limit} timeout_ms={tmo_ms}: dispatch blocked in sender.send, {why} ({} other threads, {asleep} asleep)",
+                        o.len()
+                    ),
+                ));
+            }
+            rescue(pool, sh);
+            since = Instant::now();
+            dead = 0;
+            patience = Duration::from_millis(200);
+        }
+        thread::sleep(Duration::from_micros(100));
+    }
 }
 
 // ---------------------------------------------------------------------------------------------
@@ -448,6 +588,7 @@ fn exec_det(case: &Case, ex: &mut Exec) {
     let mut next = 0usize;
     let mut retired_then_ran = false;
     let mut idled = false;
+    prune_helpers();
     if !wait_alone() {
         ex.fail("C17:harness-threads", "threads of an earlier case never went away");
     }
@@ -482,7 +623,16 @@ fn exec_det(case: &Case, ex: &mut Exec) {
                 let (gtx, grx) = mpsc::channel::<()>();
                 let job = make_job(&sh, j, kind, Wait::Gate(grx), &res_tx, Some(beg_tx.clone()));
                 sh.push(Ev::Call(0, j));
-                match catch(|| p.dispatch(job)) {
+                let (dtx, drx) = mpsc::channel();
+                let p2 = p.clone();
+                let h = helper(move || {
+                    let _ = dtx.send(catch(|| p2.dispatch(job)));
+                });
+                if let Some((sig, detail)) = watch(p, &sh, &|| h.is_finished(), &|| gates.len(), limit, tmo.as_millis() as u64) {
+                    ex.fail(sig, detail);
+                }
+                let _ = h.join();
+                match drx.recv().unwrap_or_else(|_| Err("dispatch thread died".into())) {
                     Ok(Ok(())) => {
                         sh.push(Ev::RetOk(0, j));
                         accepted.push(j);
@@ -553,7 +703,13 @@ fn exec_det(case: &Case, ex: &mut Exec) {
                 Err(_) => "bad-op".into(),
             },
             (Some("idle"), Some(_)) if w.len() == 1 => {
-                thread::sleep(tmo.min(Duration::from_secs(3)) * 4 + Duration::from_millis(10));
+                // idle workers retire after `tmo`; timers can be late on a loaded (virtualised) machine, so
+                // wait until only the threads inside gated jobs are left, at most 3 s longer
+                thread::sleep(tmo.min(Duration::from_secs(3)) + Duration::from_millis(1));
+                let t0 = Instant::now();
+                while others().len() > gates.len() && t0.elapsed() < Duration::from_secs(3) {
+                    thread::sleep(Duration::from_micros(300));
+                }
                 let live = quiet(ex);
                 idled = true;
                 ex.tag("det:idle");
@@ -737,6 +893,7 @@ fn run_conc(limit: usize, tmo_ms: u64, scripts: &[Vec<Spec>], retry: bool, pace_
             }
         }));
     }
+    let stalled = watch(&pool, &sh, &|| hs.iter().all(|h| h.is_finished()), &|| hs.iter().filter(|h| !h.is_finished()).count(), limit, tmo_ms);
     for h in hs {
         let _ = h.join();
     }
@@ -744,6 +901,7 @@ fn run_conc(limit: usize, tmo_ms: u64, scripts: &[Vec<Spec>], retry: bool, pace_
         let mut o = outcome.lock().unwrap();
         (std::mem::take(&mut o.0), std::mem::take(&mut o.1), std::mem::take(&mut o.2))
     };
+    problems.extend(stalled);
     let mut finished = HashMap::new();
     let collect = |n: usize, finished: &mut HashMap<usize, Out>, problems: &mut Vec<(String, String)>| {
         for _ in 0..n {
@@ -772,34 +930,47 @@ fn run_conc(limit: usize, tmo_ms: u64, scripts: &[Vec<Spec>], retry: bool, pace_
         let d = scripts.len();
         let mut job = make_job(&sh, j, b'v', Wait::Sleep(Duration::ZERO), &res_tx, None);
         sh.push(Ev::Call(d, j));
-        let t0 = Instant::now();
-        loop {
-            match catch(|| pool.dispatch(job)) {
-                Ok(Ok(())) => {
-                    sh.push(Ev::RetOk(d, j));
-                    accepted.push(j);
-                    collect(1, &mut finished, &mut problems);
-                    break;
-                }
-                Ok(Err(DispatchError(back))) if t0.elapsed() < Duration::from_secs(5) => {
-                    job = back;
-                    thread::yield_now();
-                }
-                Ok(Err(_)) => {
-                    sh.push(Ev::RetBusy(d, j));
-                    refused.push(j);
-                    problems.push(("C17:no-respawn".into(), format!("job after idle retirement refused for 5 s (limit {limit})")));
-                    break;
-                }
-                Err(_) => {
-                    sh.push(Ev::RetPanic(d, j));
-                    refused.push(j);
-                    break;
+        let (pool2, sh2) = (pool.clone(), sh.clone());
+        // 0 = accepted, 1 = refused for 5 s, 2 = dispatch panicked
+        let h = helper(move || -> u8 {
+            let t0 = Instant::now();
+            loop {
+                match catch(|| pool2.dispatch(job)) {
+                    Ok(Ok(())) => {
+                        sh2.push(Ev::RetOk(d, j));
+                        return 0;
+                    }
+                    Ok(Err(DispatchError(back))) if t0.elapsed() < Duration::from_secs(5) => {
+                        job = back;
+                        thread::yield_now();
+                    }
+                    Ok(Err(_)) => {
+                        sh2.push(Ev::RetBusy(d, j));
+                        return 1;
+                    }
+                    Err(_) => {
+                        sh2.push(Ev::RetPanic(d, j));
+                        return 2;
+                    }
                 }
             }
+        });
+        problems.extend(watch(&pool, &sh, &|| h.is_finished(), &|| 0, limit, tmo_ms));
+        match h.join().unwrap_or(2) {
+            0 => {
+                accepted.push(j);
+                collect(1, &mut finished, &mut problems);
+            }
+            1 => {
+                refused.push(j);
+                problems.push(("C17:no-respawn".into(), format!("job after idle retirement refused for 5 s (limit {limit})")));
+            }
+            _ => refused.push(j),
         }
     }
     drop(pool);
+    // workers see the disconnect and leave; rescue threads (if any) are done by then
+    wait_alone();
     let (ev, maxrun, distinct_workers) = {
         let l = sh.log.lock().unwrap_or_else(|p| p.into_inner());
         (l.ev.clone(), l.maxrun, l.workers.len())
@@ -926,6 +1097,9 @@ fn exec_prx(w: &[&str], salt: u64, ex: &mut Exec) -> String {
         }));
     }
     let mut finished = HashMap::new();
+    if let Some((sig, detail)) = watch(&pool, &sh, &|| hs.iter().all(|h| h.is_finished()), &|| hs.iter().filter(|h| !h.is_finished()).count(), limit, tmo) {
+        ex.fail(sig, format!("{detail} (inside Proactor::push -> push_blocking)"));
+    }
     for h in hs {
         match h.join() {
             Ok(Ok(outs)) => {
@@ -984,7 +1158,6 @@ fn exec_prx(w: &[&str], salt: u64, ex: &mut Exec) -> String {
 fn exec_hist(case: &Case, ex: &mut Exec) {
     let mut limit = 0usize;
     let mut evs: Vec<Ev> = vec![];
-    let mut bad = false;
     for (i, line) in case.lines.iter().enumerate() {
         let w: Vec<&str> = line.split_whitespace().collect();
         let out = if i == 0 {
@@ -1000,10 +1173,9 @@ fn exec_hist(case: &Case, ex: &mut Exec) {
             }
             ex.tag(format!("hist:limit={}", limit.min(9)));
             ex.nontrivial = hc.ok >= 2;
-            if bad { "violation".into() } else { format!("accept maxrun={} ok={}", hc.maxrun, hc.ok) }
+            format!("accept maxrun={} ok={}", hc.maxrun, hc.ok)
         } else if w.first() == Some(&"bad") {
             // a monitor that needs more than the history fired while the history was recorded
-            bad = true;
             let sig = w.get(1).copied().unwrap_or("C17:recorded").to_string();
             ex.fail(sig, w[2.min(w.len())..].join(" "));
             "violation".into()
@@ -1040,6 +1212,15 @@ fn record_hist(name: String, limit: usize, tmo: u64, scripts: &[Vec<Spec>], retr
 // ---------------------------------------------------------------------------------------------
 
 fn exec(case: &Case) -> Exec {
+    let t0 = Instant::now();
+    let ex = exec_inner(case);
+    if std::env::var("C17_TIMING").is_ok() {
+        eprintln!("TIMING {} {}", case.name.split('/').take(2).collect::<Vec<_>>().join("/"), t0.elapsed().as_micros());
+    }
+    ex
+}
+
+fn exec_inner(case: &Case) -> Exec {
     let mut ex = Exec::new();
     let first: Vec<&str> = case.lines.first().map(|l| l.split_whitespace().collect()).unwrap_or_default();
     match first.first().copied() {
@@ -1125,7 +1306,7 @@ fn gen_det_short(rng: &mut Rng, name: String, tmo: u64) -> Case {
     let limit = rng.range(1, 5);
     let mut lines = vec![format!("pool {limit} {tmo}")];
     let mut next = 0usize;
-    for _ in 0..rng.range(2, 4) {
+    for _ in 0..2 {
         let mut issued = vec![];
         for _ in 0..rng.range(1, limit + 2) {
             let k = match rng.below(8) {
@@ -1146,24 +1327,40 @@ fn gen_det_short(rng: &mut Rng, name: String, tmo: u64) -> Case {
     Case { name, lines }
 }
 
+fn conc_line(op: &str, limit: u64, tmo: u64, extra: &str, scripts: &[Vec<Spec>]) -> String {
+    let sc = scripts.iter().map(|s| script_text(s)).collect::<Vec<_>>().join(" ");
+    format!("{op} {limit} {tmo} {extra}{sc}")
+}
+
+/// Idle timeouts are >= 50 ms everywhere except in the `strand/*` cases (the dedicated F170
+/// scenario): a worker that retires between `thread::spawn` and `sender.send` strands the dispatcher.
 fn generate(tier: &str, rng: &mut Rng) -> Vec<Case> {
+    let t0 = Instant::now();
+    let cases = generate_inner(tier, rng);
+    if std::env::var("C17_TIMING").is_ok() {
+        eprintln!("TIMING generate {}", t0.elapsed().as_micros());
+    }
+    cases
+}
+
+fn generate_inner(tier: &str, rng: &mut Rng) -> Vec<Case> {
     let thorough = tier == "thorough";
     let mut cases = vec![];
     // 1. forced schedules
-    for i in 0..if thorough { 12_000 } else { 1_200 } {
+    for i in 0..if thorough { 10_000 } else { 300 } {
         cases.push(gen_det_long(rng, format!("det/long/{i}")));
     }
-    for i in 0..if thorough { 400 } else { 40 } {
-        let tmo = *rng.pick(&[1u64, 2, 3, 5, 10, 20]);
+    for i in 0..if thorough { 150 } else { 6 } {
+        let tmo = *rng.pick(&[150u64, 200]);
         cases.push(gen_det_short(rng, format!("det/short/{i}"), tmo));
     }
     if thorough {
         for i in 0..3 {
             cases.push(gen_det_short(rng, format!("det/short1s/{i}"), 1000));
         }
-        // every operation word over {disp v, disp r, fin oldest, fin newest} up to length 7, limits 1..2
+        // every operation word over {disp v, disp r, fin oldest, fin newest} up to length 6, limits 1..2
         for limit in 1..=2u64 {
-            for len in 1..=7u32 {
+            for len in 1..=6u32 {
                 for code in 0..4u32.pow(len) {
                     let mut lines = vec![format!("pool {limit} 20000")];
                     let mut issued: Vec<usize> = vec![];
@@ -1198,40 +1395,51 @@ fn generate(tier: &str, rng: &mut Rng) -> Vec<Case> {
         }
     }
     // 2. recorded concurrent histories (the real pool runs now; the history is the case)
-    let n_hist = if thorough { 2_500 } else { 160 };
-    for i in 0..n_hist {
+    for i in 0..if thorough { 2_500 } else { 120 } {
         let nd = rng.range(1, 4) as usize;
         let limit = if i % 3 == 0 { rng.range(1, 4) } else { rng.range(1, 8) };
-        let tmo = *rng.pick(&[1u64, 2, 5, 20, 200, 1000]);
+        let tmo = *rng.pick(&[50u64, 100, 1000]);
         let retry = rng.chance(1, 2);
         let pace = if rng.chance(1, 2) { 0 } else { rng.range(1, 300) };
-        let tail = tmo <= 20 && rng.chance(1, 3);
+        let tail = tmo == 50 && rng.chance(1, 8);
         let scripts = gen_scripts(rng, nd, 8, 1500, true);
         let salt = rng.next();
         cases.push(record_hist(format!("hist/{i}"), limit as usize, tmo, &scripts, retry, pace, tail, salt));
     }
-    // 3. live concurrent runs with the retry loop
-    for i in 0..if thorough { 600 } else { 40 } {
+    // 3. live concurrent runs with the retry loop: raw pool, then Proactors sharing a pool
+    for i in 0..if thorough { 600 } else { 30 } {
         let nd = rng.range(1, 4) as usize;
         let limit = if rng.chance(1, 30) { 0 } else { rng.range(1, 8) };
-        let tmo = *rng.pick(&[1u64, 5, 50, 1000]);
+        let tmo = *rng.pick(&[50u64, 1000]);
         let scripts = gen_scripts(rng, nd, 6, 1000, true);
-        let line = format!("conc {limit} {tmo} {}", scripts.iter().map(|s| script_text(s)).collect::<Vec<_>>().join(" "));
-        cases.push(Case { name: format!("conc/{i}"), lines: vec![line] });
+        cases.push(Case { name: format!("conc/{i}"), lines: vec![conc_line("conc", limit, tmo, "", &scripts)] });
     }
-    for i in 0..if thorough { 400 } else { 30 } {
+    for i in 0..if thorough { 400 } else { 24 } {
         let nd = rng.range(1, 4) as usize;
         let limit = rng.range(1, 8);
-        let tmo = *rng.pick(&[1u64, 5, 50, 1000]);
+        let tmo = *rng.pick(&[50u64, 1000]);
         let scripts = gen_scripts(rng, nd, 5, 800, false);
-        let dt = if rng.chance(1, 2) { "u" } else { "p" };
-        let line = format!("prx {limit} {tmo} {dt} {}", scripts.iter().map(|s| script_text(s)).collect::<Vec<_>>().join(" "));
-        cases.push(Case { name: format!("prx/{i}"), lines: vec![line] });
+        let dt = if rng.chance(1, 2) { "u " } else { "p " };
+        cases.push(Case { name: format!("prx/{i}"), lines: vec![conc_line("prx", limit, tmo, dt, &scripts)] });
+    }
+    // 4. the F170 scenario: idle timeout 0..2 ms, every dispatch spawns, so a worker can retire in the
+    //    window between `thread::spawn` and `sender.send`; the watchdog reports and rescues
+    for i in 0..if thorough { 300 } else { 24 } {
+        let nd = rng.range(1, 3) as usize;
+        let limit = rng.range(1, 4);
+        let tmo = rng.range(0, 2);
+        let scripts: Vec<Vec<Spec>> = (0..nd)
+            .map(|_| (0..rng.range(20, 60)).map(|_| Spec { kind: b'v', dur_us: rng.below(30) }).collect())
+            .collect();
+        let (op, extra) = if i % 3 == 2 { ("prx", if rng.chance(1, 2) { "u " } else { "p " }) } else { ("conc", "") };
+        cases.push(Case { name: format!("strand/{i}"), lines: vec![conc_line(op, limit, tmo, extra, &scripts)] });
     }
     cases
 }
 
 fn main() {
+    // jobs panic on purpose, also while histories are recorded inside `generate`
+    std::panic::set_hook(Box::new(|_| {}));
     run_harness(
         generate,
         exec,
